@@ -498,8 +498,8 @@ func runC19(c *Ctx) (int, error) {
 	}
 	cov := Coverage{"states": mr.Distinct + st, "transitions": mr.Generated + tr, "traces_validated_against_impl": total["ok"] + total["known"],
 		"events_total": len(events), "evaluations": runs, "distinct_nontrivial": runs, "samples": ends,
-		"rule":           "runs of the real binaries (rebuilt from /repo) under strace: bebopc-go x {valid, syntax error, validation error, missing import, missing input} x {default, -combined-imports -generate-unsafe}; for the valid input EVERY write to the output directory fails with ENOSPC (every 1/40th beyond 40 in quick), the creating open fails with EACCES, the rename fails with EXDEV; bebopfmt -w x {unformatted, formatted, unparsable} with the same faults, and a directory of mixed files; every recorded system call is replayed through Cli.tla's file-system actions and TargetIntact is evaluated at every system-call boundary (crash point)",
-		"runs":           runs, "open_deviations": devs, "cli_model_states": mr.Distinct, "exhaustive": false}
+		"rule": "runs of the real binaries (rebuilt from /repo) under strace: bebopc-go x {valid, syntax error, validation error, missing import, missing input} x {default, -combined-imports -generate-unsafe}; for the valid input EVERY write to the output directory fails with ENOSPC (every 1/40th beyond 40 in quick), the creating open fails with EACCES, the rename fails with EXDEV; bebopfmt -w x {unformatted, formatted, unparsable} with the same faults, and a directory of mixed files; every recorded system call is replayed through Cli.tla's file-system actions and TargetIntact is evaluated at every system-call boundary (crash point)",
+		"runs": runs, "open_deviations": devs, "cli_model_states": mr.Distinct, "exhaustive": false}
 	return c.Finish("model_checking", cov, []string{"strace reports the system calls faithfully; a crash is modelled as stopping between two system calls (no torn write inside one call)", "the process runs as root, so permission faults are injected at the system-call level (EACCES on openat) instead of through file modes"}), nil
 }
 
